@@ -1454,13 +1454,21 @@ class Interp:
             mutable_tags = (("kwdict",), ("tuple",)) if getattr(self.domain, "list_outparams", False) else (("kwdict",),)
             mutable_params = [p_ for p_ in [x.arg for x in allp] if isinstance(argvals.get(p_), tuple) and argvals[p_][:1] in mutable_tags]
             for kind, payload, s2 in outs:
-                if kind == "return" and isinstance(payload, tuple) and len(payload) == 2 and payload[0] == "func" and isinstance(payload[1], FUNC_TYPES + (ast.Lambda,)) \
-                        and lexical_parent(payload[1]) is func:
-                    # a closure leaves its defining frame: it takes the values of its free variables along
+                if kind == "return" and isinstance(payload, tuple) and not isinstance(func, ast.Lambda) and _defines_closures(func):
+                    # closures leaving their defining frame (returned, or inside a returned object) take the
+                    # values of their free variables along
                     own = own_names(func)
-                    env = tuple(sorted((n_, s2.get(fr.local(n_))) for n_ in free_names(payload[1]) if n_ in own and s2.has(fr.local(n_))))
-                    if env:
-                        payload = ("func", payload[1], env)
+
+                    def close_over(v, depth=0):
+                        if isinstance(v, tuple) and len(v) == 2 and v[0] == "func" and isinstance(v[1], FUNC_TYPES + (ast.Lambda,)):
+                            if lexical_parent(v[1]) is func:
+                                env = tuple(sorted(((n_, s2.get(fr.local(n_))) for n_ in free_names(v[1]) if n_ in own and s2.has(fr.local(n_))), key=lambda kv: kv[0]))
+                                return ("func", v[1], env) if env else v
+                            return v
+                        if isinstance(v, tuple) and depth < 6:
+                            return tuple(close_over(x, depth + 1) if isinstance(x, tuple) else x for x in v)
+                        return v
+                    payload = close_over(payload)
                 # variables reached through ("ref", key) entries of the closure environment: hand changes back
                 for name_, v0, ref in env_locals:
                     if ref is not None and s2.has(fr.local(name_)) and s2.get(fr.local(name_)) != v0:
